@@ -339,3 +339,13 @@ Proof.
     + rewrite in_app_iff. cbn [In]. intros [C|[C|[]]]; [exact (H3 C)|]. apply H2. left. symmetry. exact C.
     + apply IH; [exact H4|]. intro C. apply H2. right. exact C.
 Qed.
+
+Lemma aget_aemplace : forall n k v l f, aget n (aemplace k v l) = Some f ->
+  aget n l = Some f \/ (n = k /\ f = v /\ aget k l = None).
+Proof.
+  intros n k v l f H. unfold aemplace in H. destruct (aget k l) as [w|] eqn:E; [left; exact H|].
+  destruct (aget n l) as [x|] eqn:E2.
+  - left. rewrite (aget_app_some _ _ _ _ E2) in H. exact H.
+  - rewrite (aget_app_none _ _ _ _ E2) in H. destruct (N.eqb_spec k n) as [->|Hne]; [|discriminate].
+    inversion H. right. tauto.
+Qed.
